@@ -437,3 +437,32 @@ def check(facts, rep, tier, cfg):
                     rep.ok("C19.R4", "delay-from-backoff", where, "the wait before the next attempt is the value returned by Backoff::advance")
                 else:
                     rep.bad("C19.R4", "delay-from-backoff", where, "the wait before the next attempt (`%s`) is not the delay returned by Backoff::advance" % fmt(strip(d))[:60])
+    # ---- R9 the handshake timeout bounds the whole connection attempt (TCP connect + TLS + upgrade), not one step of it
+    rep.rule("C19.R9", "handshake_timeout races the complete handshake_inner future (same select / timeout wrapper): a stall at any step of the "
+                       "attempt ends with HandshakeTimeout and is retried")
+    k9 = 0
+    for b in crate.bodies:
+        if "/src/client/" not in b.file:
+            continue
+        inner = [bi for bi, t in b.calls() if callee(t) and callee(t)["name"] == "handshake_inner"]
+        if not inner:
+            continue
+        k9 += 1
+        tr = Tracer(facts, b)
+        rep.analysed(b)
+        where = "%s (%s)" % (loc_str(b.term(inner[0])["loc"]), b.path)
+        uses = []
+        for bi, t in b.calls():
+            c = callee(t)
+            if c and c["name"] in ("sleep", "timeout", "timeout_at") and t["args"] and \
+                    any(x.kind == "field" and x[2] == "handshake_timeout" for x in walk(tr.operand(t["args"][0]))):
+                uses.append(bi)
+        if uses:
+            rep.ok("C19.R9", "timeout-covers-whole-attempt", where, "handshake_timeout is armed next to handshake_inner")
+        else:
+            rep.bad("C19.R9", "timeout-covers-whole-attempt", where,
+                    "the function that drives handshake_inner does not arm handshake_timeout around it: a server that accepts the TCP connection and "
+                    "stalls before the upgrade (TLS handshake, connect) is waited for without bound, so the client neither retries nor gives up")
+    if "client" in crate.features:
+        rep.floor("C19.R9", "handshake drivers", k9, 1)
+
